@@ -102,7 +102,7 @@ let do_ce line idx casefile =
            let am = List.sort compare am in
            let os = List.concat (List.map (fun (id, kind, o, tg, size) ->
                (if o = me then [if kind = 'p' then Printf.sprintf "pl.%d.%d" id tg else Printf.sprintf "gl.%d.%d.1" id tg] else [])
-               @ (if tg = me then [if kind = 'p' then Printf.sprintf "pr.%d.%d.%d.1" id o size else Printf.sprintf "gr.%d.%d" id o] else [])) xfers) in
+               @ (if tg = me then [if kind = 'p' then Printf.sprintf "pr.%d.%d.%d.1" id o size else Printf.sprintf "gr.%d" id] else [])) xfers) in
            let os = List.sort compare os in
            let nmine = List.length (List.filter (fun (_, kind, _, _, _) -> kind = 'p' || kind = 'g') (List.nth scr me)) in
            let maxt = if ub < 0 then 2147483647 else ub in
